@@ -74,7 +74,19 @@ def _async_send(ex, recv, args, kwargs, st, frame, node):
     ev = _field_cont(ex, 'SENT', 'VSent', 'events', st)
     et = ev.t.args[0]
     out = args[0]
-    ex.l_append(ev, Sc(et.mk(_clock_now(ex, st), out.term), et), st)
+    # async_send(out, addr=None, port=_MDNS_PORT, v6_flow_scope=(), transport=None)
+    names = ['out', 'addr', 'port', 'v6_flow_scope', 'transport']
+    b = dict(zip(names, args))
+    b.update(kwargs)
+    addr = b.get('addr')
+    has_addr = not (addr is None or isinstance(addr, NoneV))
+    from pyvc.types import STR as _STR
+    addr_t = ex.term(addr, st, _STR) if has_addr else z3.StringVal('') if False else ex.term(PyConst(''), st, _STR)
+    port = b.get('port')
+    port_t = ex.num(port, st)[0] if port is not None else z3.IntVal(5353)
+    tr = b.get('transport')
+    tr_t = tr.term if (tr is not None and not isinstance(tr, NoneV)) else NONE
+    ex.l_append(ev, Sc(et.mk(_clock_now(ex, st), out.term, z3.BoolVal(has_addr), addr_t, port_t, tr_t), et), st)
     yield st, NoneV()
 
 
@@ -83,7 +95,8 @@ def install(R, send_stub=True):
     _conc.MODEL_CLASSES.update({'TimerHandle': CHandle, 'EventLoop': CLoop})
     R.shape('VClock', {'now': 'real'}, bases=[])
     R.shape('VTimers', {'events': 'list[%s]' % TEV}, bases=[])
-    R.shape('VSent', {'events': 'list[tuple[real, DNSOutgoing]]'}, bases=[])
+    # send event: (time, builder, has destination address, address, port, transport or None = every socket)
+    R.shape('VSent', {'events': 'list[tuple[real, DNSOutgoing, bool, str, int, object]]'}, bases=[])
     R.shape('TimerHandle', {'cancelled': 'bool'}, bases=[])
     R.shape('EventLoop', {}, bases=[])
     R.ghost_objects['CLOCK'] = 'VClock'
